@@ -506,6 +506,8 @@ def op_sort(w, ev, slot):
         if fam % CB.N_SORT == 0 and fault is None and not ev.get('explicit'):
             return real.sort(axis=AXNAME[ax])          # library default natsort
         rec = Recorder(0 if fault is not None else None)
+        if ev.get('pos'):
+            return real.sort(CB.make_sort(fam, rec), AXNAME[ax])
         return real.sort(CB.make_sort(fam, rec), axis=AXNAME[ax])
     if fault is not None:
         w.stats['fault.F1.armed'] += 1
@@ -552,6 +554,8 @@ def op_align_to(w, ev, slot):
     args = [other] if other is not slot else []
 
     def do(real):
+        if ev.get('pos'):
+            return real.align_to(other.real, mode)
         return real.align_to(other.real, axis=mode)
     return _newtable(w, ev, slot, 'align_to', do, expected, 'reorder.result',
                      args=args)
@@ -640,8 +644,12 @@ def op_add_metadata(w, ev, slot):
     before = copy.deepcopy(mapping)
     _mutating(w, slot)
     w.case('metadata.add', 'add_metadata', slot, ax=ax)
-    status, res = _call(lambda: slot.real.add_metadata(mapping,
-                                                       axis=AXNAME[ax]))
+    if ev.get('pos'):
+        status, res = _call(lambda: slot.real.add_metadata(mapping,
+                                                           AXNAME[ax]))
+    else:
+        status, res = _call(lambda: slot.real.add_metadata(mapping,
+                                                           axis=AXNAME[ax]))
     if status != 'ok':
         w.fail('metadata.add.raised', 'add_metadata raised %r' % res)
     w.expect_table(slot.real, exp, 'metadata.add', True, 'add_metadata')
@@ -677,8 +685,14 @@ def op_del_metadata(w, ev, slot):
     w.case('metadata.del', 'del_metadata', slot, ax=axis,
            allkeys=keys is None)
     name = ('observation', 'sample', 'whole')[axis]
-    status, res = _call(lambda: slot.real.del_metadata(
-        keys=None if keys is None else list(keys), axis=name))
+    kform = ev.get('kform', 0) % 3      # keys as list / tuple / set
+    karg = None if keys is None else [list(keys), tuple(keys),
+                                      set(keys)][kform]
+    if ev.get('pos'):
+        status, res = _call(lambda: slot.real.del_metadata(karg, name))
+    else:
+        status, res = _call(lambda: slot.real.del_metadata(keys=karg,
+                                                           axis=name))
     if status != 'ok':
         w.fail('metadata.del.raised', 'del_metadata raised %r' % res)
     w.expect_table(slot.real, exp, 'metadata.del', True, 'del_metadata')
